@@ -23,5 +23,29 @@ CHECKS = {
         "note": "valid = documented combinations accepted by create_network; deviation bound D; executions cut by the harness event bound are not judged on the stop condition",
         "technique": "deviation-bounded exhaustive enumeration of environment answers over a combinatorial configuration family, real implementation",
     },
+    "C04": {
+        "text": "Complete answer trees of the server families (1-3 servers, server-priority function, non-pre-emptive and pre-emptive schedules with zero-server shifts and offsets, blocking, priorities, reneging) plus the universal family up to the deviation bound; after every event the server<->customer relation is checked from the server side, the roster against a modular-arithmetic timetable, per-server service intervals for overlap, and at the end the reported utilisation against an attach/detach seam log.",
+        "ref": "DESIGN.md §7 C04",
+        "note": "utilisation clause only without pre-emption and for simulate_until_max_time; bounded populations/horizon",
+        "technique": "stateless exhaustive enumeration of environment answers of the real implementation, per-event invariant + seam-log reference model",
+    },
+    "C05": {
+        "text": "Complete answer trees over disciplines x {priorities, pre-emptive priorities, schedules of every pre-emption option, reneging, class change while waiting, blocking} plus the universal family: after every event no rostered server is idle while a customer present is not held by a server.",
+        "ref": "DESIGN.md §7 C05",
+        "note": "server-side definition of in service; slotted/PS/infinite-server nodes outside the statement",
+        "technique": "stateless exhaustive enumeration of environment answers of the real implementation, per-event invariant monitor",
+    },
+    "C06": {
+        "text": "Complete answer trees for every combination of servers {0,1,2,inf} x queue capacity {0,1,2} x system capacity {1,2,3}, batches {2,1,0}, two classes arriving at the same instant, baulking on top, two-node networks: population bounds after every event and a sequential admission oracle for every arrival event (rejected iff node or system full at that member's turn; rejection record contents).",
+        "ref": "DESIGN.md §7 C06",
+        "note": "no re-route option; schedule/slotted nodes with finite capacity are not judged (capacity not a constant)",
+        "technique": "stateless exhaustive enumeration of environment answers of the real implementation, admission reference model replayed per arrival event",
+    },
+    "C07": {
+        "text": "Complete answer trees over tandem / self-loop / 2-cycle / fork-join / two-upstream topologies with 1-2 servers and capacities 0/1, priorities, non-pre-emptive schedules upstream, reneging at the destination: at the moment of every block/release decision (tracker seam) the destination's true population is compared with its capacity, releases of blocked customers are compared with a FIFO shadow queue, and after every event no customer is left blocked while its destination has space; time_blocked is recomputed.",
+        "ref": "DESIGN.md §7 C07",
+        "note": "no pre-emption in the families (statement's quantifier); capacity = fixed servers + queue capacity",
+        "technique": "stateless exhaustive enumeration of environment answers of the real implementation, FIFO shadow reference model + moment-of-decision checks",
+    },
 }
 PENDING = {}
